@@ -133,6 +133,29 @@ def run(ctx):
                               exact=float(np.ravel(ex2)[i_]), error_estimate=float(ee.ravel()[i_]), **rep)
         eng['exact'] += 1
     ctx.notes.append('multivariate honesty: worst err / (1000 est + 1e-7 scale) = %.3g' % worst_h)
+    # full_output switched on after construction (fd.full_output = True): the record is that of an object built with it
+    for _ in range(ctx.budget(20, 100)):
+        m = rng.choice(['central', 'forward', 'backward', 'complex', 'multicomplex'])
+        n = rng.randint(1, 2 if m == 'multicomplex' else 3)
+        xq = rng.uniform(0.3, 2.0)
+        fq = lambda t: np.exp(0.5 * t) + t * t
+        ctx.tried(('full_output-later', m, n, xq))
+        try:
+            with warnings.catch_warnings():
+                warnings.simplefilter('ignore')
+                dq = nd.Derivative(fq, n=n, method=m)
+                if rng.random() < 0.5:
+                    dq(xq)
+                dq.full_output = True
+                vq, iq = dq(xq)
+                vr, ir = nd.Derivative(fq, n=n, method=m, full_output=True)(xq)
+        except Exception as ex:
+            ctx.violation('Derivative raised %r after full_output was switched on' % ex, method=m, n=n)
+            continue
+        if not (float(iq.f_value) == float(fq(xq)) and float(vq) == float(vr) and float(iq.error_estimate) == float(ir.error_estimate)):
+            ctx.violation('the record of an object whose full_output was switched on after construction differs from that of an object built '
+                          'with full_output=True (f_value must be f(x))', method=m, n=n, x=xq, f_value=float(iq.f_value), fx=float(fq(xq)),
+                          value=[float(vq), float(vr)])
     # f_value is f at the point and with the extra arguments of *this* call: one object called again with other extra arguments at
     # the same point, and with the caller's array updated in place between the calls
     for _ in range(ctx.budget(30, 200)):
